@@ -7,12 +7,15 @@
 (* trace recorded when the real interpreter ran the program on RamEDBs[ei]. *)
 (* Every event must be matched by the one enabled action of Ram.tla with   *)
 (* the same statement id, and the sizes of all relations after the step    *)
-(* must be those the engine reported.  A behaviour that consumes the whole *)
-(* trace and ends with an empty control stack prints ACCEPT <ei>.          *)
+(* must be those the engine reported (record/ADT values are references     *)
+(* into a hash-consing record table on both sides, so cardinalities agree  *)
+(* whatever references the two tables hand out).  A behaviour that         *)
+(* consumes the whole trace and ends with an empty control stack prints    *)
+(* ACCEPT <ei>.                                                            *)
 (***************************************************************************)
 EXTENDS Ram
 VARIABLE l
-tvars == <<ei, db, stack, vars, outs, oob, last, glog, l>>
+tvars == <<ei, db, stack, vars, outs, oob, last, glog, rtab, l>>
 
 TInit == Init /\ l = 1
 TraceOf == RamTraces[ei]
@@ -39,5 +42,5 @@ Accept == /\ l = Len(TraceOf) + 1 /\ Finished
 TNext == Consume \/ Accept
 TSpec == TInit /\ [][TNext]_tvars
 \* properties of Ram.tla evaluated on every state of the real run
-TraceInvariants == FinalIsModel /\ LoopHead /\ TempsCleared
+TraceInvariants == FinalIsModel /\ LoopHead /\ TempsCleared /\ RecordsOK
 =============================================================================
